@@ -14,7 +14,8 @@ import traceback
 from   typing                   import List
 
 
-from   pyflyby._file            import (FileText, Filename, atomic_write_file,
+from   pyflyby._file            import (FileText, Filename,
+                                        UnsafeFilenameError, atomic_write_file,
                                         expand_py_files_from_args, read_file)
 from   pyflyby._importstmt      import ImportFormatParams
 from   pyflyby._log             import logger
@@ -311,7 +312,15 @@ def filename_args(args: List[str], on_error=_default_on_error):
     if args:
         for a in args:
             assert isinstance(a, str)
-        return expand_py_files_from_args([Filename(f) for f in args], on_error)
+        filenames = []
+        for a in args:
+            try:
+                filenames.append(Filename(a))
+            except UnsafeFilenameError:
+                # Report this argument like any other bad one; the other
+                # arguments are still processed.
+                on_error(a)
+        return expand_py_files_from_args(filenames, on_error)
     elif not os.isatty(0):
         return [Filename.STDIN]
     else:
